@@ -49,6 +49,19 @@ impl EasingFunction for CountingEase {
     }
 }
 
+/// Custom functions that are deliberately not anchored at (0,0) / (1,1).
+#[derive(Clone, Debug)]
+struct ShapeEase(u8);
+impl EasingFunction for ShapeEase {
+    fn calc(&self, x: f32) -> f32 {
+        match self.0 {
+            0 => ((x * 4.0).floor() + 1.0).min(4.0) / 4.0,
+            1 => 0.5,
+            _ => 1.0 - x,
+        }
+    }
+}
+
 /// classification of one variant against its definition
 #[derive(Default, Debug)]
 struct VariantClass {
@@ -297,6 +310,53 @@ pub fn c13(run: &mut Run) {
                 eo.evaluated += 1;
                 if idx == n / 3 {
                     eo.sample(|| json!({"t": t, "a": v.a, "want": want}));
+                }
+            }
+            Ok(())
+        },
+    );
+    // ---- a custom easing is used as given, also when `Easing::calc` is called directly and at the two ends
+    let grid_d: u64 = if quick { 1 << 16 } else { 1 << 22 };
+    run.enumerate(
+        "c13_custom_direct",
+        "four custom functions that are NOT anchored at (0,0)/(1,1) (steps(4, jump-start), the constant 0.5, the flip 1-x, a shape dipping to -0.25 and overshooting 1) wrapped in Easing::Custom; oracle: Easing::Custom(f).calc(x) is bit-identical to f.calc(x) at every x = k/grid in [0,1] including exactly 0 and 1 and the 64 floats next to each end, also after cloning the Easing",
+        4 * (grid_d + 1 + 128),
+        1 << 12,
+        true,
+        move |range, eo| {
+            let calls = std::sync::Arc::new(AtomicU64::new(0));
+            let bad = std::sync::Arc::new(AtomicU64::new(0));
+            let fs: [(&str, Box<dyn EasingFunction>); 4] = [
+                ("steps(4, jump-start)", Box::new(ShapeEase(0))),
+                ("constant 0.5", Box::new(ShapeEase(1))),
+                ("1 - x", Box::new(ShapeEase(2))),
+                ("dip and overshoot", Box::new(CountingEase { calls: calls.clone(), bad_arg: bad.clone() })),
+            ];
+            let wrapped: Vec<Easing> = fs.iter().map(|(_, f)| Easing::Custom(f.clone())).collect();
+            let cloned: Vec<Easing> = wrapped.iter().map(|e| e.clone()).collect();
+            let per = grid_d + 1 + 128;
+            for idx in range {
+                let (v, k) = ((idx / per) as usize, idx % per);
+                let x = if k <= grid_d {
+                    k as f32 / grid_d as f32
+                } else if k <= grid_d + 64 {
+                    f32::from_bits((k - grid_d) as u32) // the smallest positive floats
+                } else {
+                    f32::from_bits(1.0f32.to_bits() - (k - grid_d - 64) as u32) // just below 1
+                };
+                let want = fs[v].1.calc(x);
+                for (route, e) in [("Easing::Custom(f)", &wrapped[v]), ("a clone of Easing::Custom(f)", &cloned[v])] {
+                    let got = e.calc(x);
+                    if got.to_bits() != want.to_bits() {
+                        return Err((json!({"index": idx, "f": fs[v].0, "x": x}), format!("custom easing not used as given: {route}.calc({x}) = {got} but f.calc({x}) = {want} (f = {})", fs[v].0)));
+                    }
+                }
+                eo.evaluated += 1;
+                if want != x {
+                    eo.nontrivial += 1;
+                }
+                if k == grid_d / 3 {
+                    eo.sample(|| json!({"f": fs[v].0, "x": x, "value": want}));
                 }
             }
             Ok(())
